@@ -58,7 +58,8 @@ pub fn valid_stream(rng: &mut Rng, nprog: usize, pes_per_stream: usize, repeats:
             let sid = match rng.below(8) { 0 => 0xbd, 1 => 0xbe, 2 => 0xfd, 3 => 0xc0 + rng.below(32) as u8, _ => 0xe0 + rng.below(16) as u8 };
             let payload = pes_payload(rng);
             let spec = PesSpec { stream_id: sid, pts: if rng.chance(3, 4) { Some(rng.below(1 << 33)) } else { None }, dts: if rng.chance(1, 3) { Some(rng.below(1 << 33)) } else { None },
-                                 extra_hdr: if rng.chance(1, 4) { rng.range(1, 6) as usize } else { 0 }, bounded: rng.chance(1, 2), payload: payload.clone() };
+                                 extra_hdr: if rng.chance(1, 4) { rng.range(1, 6) as usize } else { 0 }, bounded: rng.chance(1, 2), payload: payload.clone(),
+                                 opt_flags: if rng.chance(1, 3) { rng.byte() & 0x3f } else { 0 }, opt_fill: rng.bytes(8) };
             let spec = PesSpec { dts: if spec.pts.is_some() { spec.dts } else { None }, ..spec };
             let (bytes, hl) = pes_packet(&spec);
             let style = rng.below(4);
